@@ -27,9 +27,12 @@ shape is encodable, so a non-ASCII message cannot be dropped by the codec) -/
 theorem file_defaults :
     Gen.fileBuffering = 1 ∧ Gen.fileMode = "a".toList ∧ Gen.fileEncoding = "utf8".toList := by decide
 
-/-- `StreamSink` treats a stream as flushable exactly when it has a callable `flush` (so the
-hypothesis `flushable` of the stream theorems means what the property says) -/
-theorem flushable_iff_callable_flush : Gen.flushableIffCallableFlush = true := by decide
+/-- `StreamSink` treats a stream as flushable exactly when it has a callable `flush` – whatever the
+stream says about its own buffering (`line_buffering`, `write_through`): a line-buffered stream does
+NOT flush a text without a line end by itself -/
+theorem flushable_iff_callable_flush (hasFlush lineBuffering writeThrough : Bool) :
+    Gen.flushableOf hasFlush lineBuffering writeThrough = hasFlush := by
+  simp [Gen.flushableOf]
 
 /-- string formats, non-raw call: the sink receives `format-part ++ terminator ++ exception` -/
 theorem static_text_shape (t : Str) (json : Str → Str) (m : Msg) (hr : m.raw = false)
@@ -108,22 +111,37 @@ theorem restart_preserves_acked (content : Str) (rot comp ret : Bool) :
 
 /-! ### (c) flushable streams -/
 
-/-- `StreamSink.write` on a stream with a callable `flush`: whatever the stream's own buffering and
-whatever the text, nothing stays in user space when the call returns -/
-theorem flushable_stream_flushed_each_message (s : Stream) (hf : s.flushable = true)
-    (hc : s.file.closed = false) (m : Str) :
-    (s.sinkWrite m).file.pending = [] ∧ (s.sinkWrite m).file.os = s.file.os ++ s.file.pending ++ m := by
+/-- `StreamSink.write` on ANY stream with a callable `flush` – block buffered, line buffered,
+write-through, whatever is already pending – and ANY text (with or without a line end): nothing
+stays in user space when the call returns -/
+theorem flushable_stream_flushed_each_message (f : TextFile) (lineBufferingAttr writeThrough : Bool)
+    (hc : f.closed = false) (m : Str) :
+    let s := StreamSink.new f true lineBufferingAttr writeThrough
+    (s.sinkWrite m).file.pending = [] ∧ (s.sinkWrite m).file.os = f.os ++ f.pending ++ m := by
+  intro s
+  have hf : s.flushable = true := by simp [s, StreamSink.new, flushable_iff_callable_flush]
   have := stream_write s hf hc m
   exact ⟨this.1, this.2.1⟩
 
-/-- crash after the k-th call on a flushable stream sink: exactly the first k texts are in the OS –
-for ALL texts (no line-end hypothesis: raw messages included) -/
-theorem stream_crash_preserves_acked (s : Stream) (hf : s.flushable = true) (hc : s.file.closed = false)
-    (hp : s.file.pending = []) (ms : List Str) (k : Nat) :
-    (runStream s (ms.take k)).file.crash = s.file.os ++ (ms.take k).flatten ∧
+/-- crash after the k-th call on a flushable stream sink of any buffering kind: exactly the first k
+texts are in the OS – for ALL texts (no line-end hypothesis: raw messages, dynamic formats) -/
+theorem stream_crash_preserves_acked (f : TextFile) (lineBufferingAttr writeThrough : Bool)
+    (hc : f.closed = false) (hp : f.pending = []) (ms : List Str) (k : Nat) :
+    let s := StreamSink.new f true lineBufferingAttr writeThrough
+    (runStream s (ms.take k)).file.crash = f.os ++ (ms.take k).flatten ∧
     (runStream s (ms.take k)).file.pending = [] := by
+  intro s
+  have hf : s.flushable = true := by simp [s, StreamSink.new, flushable_iff_callable_flush]
   have := runStream_flushed (ms.take k) s hf hc hp
   exact ⟨this.2.1, this.1⟩
+
+/-- what the flush is needed for: WITHOUT it a line-buffered stream keeps a text without a line end
+in user space – line buffered or not – so the decision may not depend on `line_buffering` -/
+theorem line_buffered_stream_needs_the_flush (f : TextFile) (hc : f.closed = false)
+    (hp : f.pending = []) (m : Str) (hm : hasLineEnd m = false) :
+    (f.write m).crash = f.os ∧ (f.write m).pending = m := by
+  have := (TextFile.write_open f hc m).2.2.2.2 hm
+  simp [TextFile.crash, this.1, this.2, hp]
 
 /-! ### (d) normal interpreter exit -/
 
